@@ -861,6 +861,7 @@ func ruleFatalCloses(r *Run, p *Prog, rule string) {
 func ruleAlertWiring(r *Run, p *Prog, rule string) {
 	try := p.Method(diodesRel, "ManyToOne", "TryNext")
 	if r.Anchor(try != nil, rule, "(*ManyToOne).TryNext") {
+		try = p.View(try, "", nil) // a private fastForward(seq) step is part of TryNext
 		isAlert := func(in ssa.Instruction) (*ssa.Call, bool) {
 			c, ok := in.(*ssa.Call)
 			if !ok || !c.Call.IsInvoke() || c.Call.Method.Name() != "Alert" {
